@@ -160,7 +160,9 @@ static int step(prog_t* P) {
   const uint64_t N = P->N;
   rng_t* r = P->r;
   const MODULE* M = P->mod;
-  int choice = (int)(rng_u64(r) % 22);
+  // weighted choice: DFT-space products, inverse DFTs and big-coefficient operations are what the property is about
+  static const int W[] = {0, 1, 2, 3, 4, 5, 6, 7, 8, 9, 10, 10, 10, 11, 11, 11, 12, 13, 13, 13, 14, 15, 15, 15, 16, 16, 16, 17, 18, 19, 20, 20, 21, 21};
+  int choice = W[rng_u64(r) % ARRAY_LEN(W)];
   if (P->ntt && choice >= 9 && choice != 10 && choice != 11) choice %= 9;
   switch (choice) {
     case 0: {  // fresh input vector
@@ -541,6 +543,16 @@ static void program_case(uint64_t N, int ntt, int native, unsigned prog, int len
       }
   }
   int guard = 0;
+  if (!ntt) {
+    // every FFT64 program starts with a prepared scalar and a prepared matrix in its pool
+    val_t* a0 = &P.v[0];
+    if (norminf(a0->x, N) < 0x1p50L) {
+      val_t* pp = newval(&P, T_PPOL, 1, 0, "svp_prepare");
+      memcpy(pp->x, a0->x, N * sizeof(i128));
+      svp_prepare(P.mod, pp->p, a0->p);
+      cnt("op:svp_prepare", 1);
+    }
+  }
   while (P.ops_done < len && !P.failed && guard++ < len * 30) {
     if (!ntt && (rng_u64(P.r) % 23) == 0) {
       small_product_step(&P);
@@ -573,7 +585,7 @@ void run_C16(void) {
   const unsigned nprog = th ? 60000 : 1600;
   for (unsigned p = 0; p < nprog; p++) {
     const uint64_t N = WN[p % ARRAY_LEN(WN)];
-    const int len = N <= 1024 ? 5 + (int)(mix64(p) % 36) : 5 + (int)(mix64(p) % 12);
+    const int len = N <= 64 ? 5 + (int)(mix64(p) % 116) : (N <= 1024 ? 5 + (int)(mix64(p) % 36) : 5 + (int)(mix64(p) % 12));
     const int ntt = (p % 5) == 4;
     program_case(N, ntt, ntt ? 1 : ((p / 5) % 3 != 2), p, len);
   }
